@@ -6,7 +6,7 @@ from sa import dispatch as D
 from sa import model as M
 from sa import effects as E
 from sa import flow
-from sa.rules import exh, state
+from sa.rules import astpure, exh, state
 
 AST_PUBLICATION = {
     'results': 'write-only publication of the last results (update never reads it)',
@@ -239,6 +239,11 @@ def check(ix, rep):
             checked_ops[key] = state.operation_state(ix, rep, opc, interp_rebuilds=rebuilds)
             nop += 1
     rep.floor('operation classes checked', nop, 50)
+    # ---- (e) what reset() re-derives from must not have been altered in between -------------------------------
+    if not astpure.self_test():
+        raise AnalysisError('R-ASTPURE self-test: the positive example is not recognised')
+    nfun = astpure.check_modules(ix, rep, ('rtamt/semantics/', 'rtamt/spec/', 'rtamt/explanation/'), 'spec-read-only')
+    rep.floor('functions checked for stores through parameters', nfun, 780)
 
     explanation = (
         'Typestate/effect analysis of the reset path. For every concrete online interpreter class the executed reset chain '
